@@ -350,55 +350,71 @@ impl Run {
     /// one stress pass of the property from 16 barrier-released threads as its very first calls into
     /// the crate (lazily initialised state, first-use races), and reports.
     pub fn cold_children(&mut self) -> PResult {
-        let mut procs = Vec::new();
+        // (binary, cold code) for every child; run in small batches so that the threads of one child
+        // are not starved by hundreds of others (the offset sweep needs them to run at the same time)
+        let mut jobs: Vec<(&'static str, PathBuf, usize)> = Vec::new();
         for prof in ["checked", "unchecked"] {
             let bin = twin_binary(&self.root, prof);
             if !bin.exists() {
                 continue;
             }
             for k in 0..2usize {
-                for rep in 0..(if k == 0 { 12usize } else { 4 }) {
-                    let child = std::process::Command::new(&bin)
-                        .arg(&self.id)
-                        .arg("--tier")
-                        .arg(self.tier.name())
-                        .arg("--seed")
-                        .arg(format!("{}", self.seed as i64))
-                        .arg("--cold")
-                        .arg(format!("{}", k + 16 * rep))
-                        .env("VERIF_ROOT", &self.root)
-                        .stdout(std::process::Stdio::piped())
-                        .stderr(std::process::Stdio::null())
-                        .spawn();
-                    if let Ok(c) = child {
-                        procs.push((prof, k, c));
-                    }
+                let reps = (if k == 0 { 12usize } else { 4 }) * if self.tier == Tier::Thorough { 4 } else { 1 };
+                for rep in 0..reps {
+                    jobs.push((prof, bin.clone(), k + 16 * rep));
                 }
             }
         }
-        let n = procs.len() as u64;
+        let batch: usize = std::env::var("VERIF_COLD_BATCH").ok().and_then(|s| s.parse().ok()).unwrap_or(2);
+        let n = jobs.len() as u64;
         let mut ran = 0u64;
         let mut failure: Option<(String, Value)> = None;
-        for (prof, k, c) in procs {
-            let out = c.wait_with_output().expect("cold child");
-            let text = String::from_utf8_lossy(&out.stdout).to_string();
-            for line in text.lines() {
-                if let Some(js) = line.strip_prefix("COLDRESULT fail ") {
-                    if failure.is_none() {
-                        let mut v: Value = serde_json::from_str(js).unwrap_or(Value::Null);
-                        if let Some(o) = v.as_object_mut() {
-                            o.insert("profile".into(), json!(prof));
-                            o.insert("stress_pass".into(), json!(k));
-                        }
-                        failure = Some((prof.to_string(), v));
-                    }
-                } else if line.starts_with("COLDRESULT ok") {
-                    ran += 1;
+        for chunk in jobs.chunks(batch.max(1)) {
+            let mut procs = Vec::new();
+            for (prof, bin, code) in chunk {
+                let child = std::process::Command::new(bin)
+                    .arg(&self.id)
+                    .arg("--tier")
+                    .arg(self.tier.name())
+                    .arg("--seed")
+                    .arg(format!("{}", self.seed as i64))
+                    .arg("--cold")
+                    .arg(format!("{}", code))
+                    .env("VERIF_ROOT", &self.root)
+                    .stdout(std::process::Stdio::piped())
+                    .stderr(std::process::Stdio::null())
+                    .spawn();
+                if let Ok(c) = child {
+                    procs.push((*prof, code % 16, c));
                 }
+            }
+            for (prof, k, c) in procs {
+                let out = c.wait_with_output().expect("cold child");
+                let text = String::from_utf8_lossy(&out.stdout).to_string();
+                if std::env::var("VERIF_COLD_DEBUG").is_ok() {
+                    eprintln!("cold child {} pass {}: {:?} {}", prof, k, out.status.code(), text.lines().filter(|l| l.starts_with("COLDRESULT")).map(|l| &l[..l.len().min(18)]).collect::<Vec<_>>().join("|"));
+                }
+                for line in text.lines() {
+                    if let Some(js) = line.strip_prefix("COLDRESULT fail ") {
+                        if failure.is_none() {
+                            let mut v: Value = serde_json::from_str(js).unwrap_or(Value::Null);
+                            if let Some(o) = v.as_object_mut() {
+                                o.insert("profile".into(), json!(prof));
+                                o.insert("stress_pass".into(), json!(k));
+                            }
+                            failure = Some((prof.to_string(), v));
+                        }
+                    } else if line.starts_with("COLDRESULT ok") {
+                        ran += 1;
+                    }
+                }
+            }
+            if failure.is_some() {
+                break;
             }
         }
         self.evaluations += ran;
-        self.generators.push(json!({"name": "fresh child processes: a stress pass run from 16 barrier-released threads as the first calls into the crate", "kind": "concurrent cold start (not schedule-controlled)", "cases": n, "children_that_ran_a_pass": ran, "note": "both build profiles x (12 repetitions of the first stress pass + 4 of the second), each repetition starting on different items; finds first-use races (lazily built state) only with the probability of the interleaving"}));
+        self.generators.push(json!({"name": "fresh child processes: a stress pass run from 16 barrier-released threads as the first calls into the crate", "kind": "concurrent cold start (not schedule-controlled)", "cases": n, "children_that_ran_a_pass": ran, "note": "both build profiles x (12 repetitions of the first stress pass + 4 of the second), each repetition starting on different items; children run two at a time; finds first-use races (lazily built state) only with the probability of the interleaving"}));
         if let Some((_prof, v)) = failure {
             let clause = format!("{}.concurrent_cold_start", self.id);
             let msg = v["message"].as_str().unwrap_or("").to_string();
